@@ -43,7 +43,7 @@ type c12Dest struct {
 func C12_Jobs() []string {
 	var out []string
 	for _, m := range []string{"parse", "validate"} {
-		for _, s := range []string{"top-struct", "struct-in-slice", "struct-behind-ptr", "nested-struct", "slice-in-struct", "custom-in-struct", "primitive", "named-primitives"} {
+		for _, s := range []string{"top-struct", "struct-in-slice", "struct-behind-ptr", "nested-struct", "slice-in-struct", "custom-in-struct", "primitive", "named-primitives", "reentrant"} {
 			out = append(out, "arg/"+s+"/"+m)
 		}
 		out = append(out, "post/order/"+m, "post/gated/"+m, "post/error/"+m, "post/zogissue/"+m, "post/struct/"+m, "post/slice/"+m, "post/error-catch/"+m, "post/wrapped/"+m)
@@ -111,6 +111,44 @@ func C12_Run(job string) {
 			schema = z.Struct(z.Schema{"c": z.CustomFunc(func(p *int, ctx z.Ctx) bool { return rec(p, ctx) })})
 			in, want = map[string]any{"c": x}, &d.C
 			d.C = x
+		case "reentrant":
+			// a callback that itself runs another schema (with other context values): the outer
+			// call's context keeps this call's values and its later issues stay in its own result
+			inner := func() {
+				var tmp int
+				z.Int().GT(1000).Parse(1, &tmp, z.WithCtxValue("k", "inner"), z.WithCtxValue("other", 1))
+				z.Int().Validate(&tmp, z.WithCtxValue("k", "inner2"))
+			}
+			boom := errors.New("late")
+			sc := z.Struct(z.Schema{"a": z.Int().TestFunc(func(val any, ctx z.Ctx) bool {
+				calls++
+				inner()
+				ctxGood = v.And(ctxGood, ctxOK(ctx))
+				return true
+			})}).TestFunc(func(p any, ctx z.Ctx) bool {
+				calls++
+				inner()
+				ctxGood = v.And(ctxGood, ctxOK(ctx))
+				return true
+			}).PostTransform(func(p any, ctx z.Ctx) error {
+				calls++
+				ctxGood = v.And(ctxGood, ctxOK(ctx))
+				return boom
+			})
+			var rd c12Dest
+			var errs z.ZogIssueMap
+			v.Assume(x != 0)
+			if isV {
+				rd.A = x
+				errs = sc.Validate(&rd, z.WithCtxValue("k", k))
+			} else {
+				errs = sc.Parse(map[string]any{"a": x}, &rd, z.WithCtxValue("k", k))
+			}
+			v.Cover("callback-ran")
+			v.Assert(calls == 3, "C12:callback-count")
+			v.Assert(ctxGood, "C12:ctx-values")
+			v.Assert(len(errs) == 2 && len(errs["$root"]) == 1 && errs["$root"][0].Err == boom, "C12:posttransform-error-not-reported")
+			return
 		case "named-primitives":
 			// schemas of named primitive types: the test receives the node's own (named) value
 			var gotS, gotN any
@@ -454,7 +492,7 @@ func C19_Jobs() []string {
 		"default-slice/top/parse", "default-slice/top/validate", "default-slice/field/parse", "default-slice/field/validate",
 		"default-slice/nested/parse", "default-slice/nested/validate",
 		"default-prim/parse", "default-prim/validate", "catch-prim/parse", "default-time/parse",
-		"oneof-list", "contains-needle", "two-dest-types", "test-params-kept",
+		"oneof-list", "contains-needle", "params-after-failures", "nil-slice-validate", "two-dest-types", "test-params-kept",
 		"input/map", "input/typed-slice", "input/struct", "input/nested", "input/form", "input/query",
 		"validate-unchanged",
 	}
@@ -713,6 +751,47 @@ func C19_Run(job string) {
 			z.Slice(z.Slice(z.Int()).PostTransform(mutAll)).Parse(in, &d)
 			v.Assert(eqAny(row[0], x) && len(in) == 2, "C19:input-modified")
 		}
+	case "params-after-failures":
+		// failing executions (whose messages render the test's parameters) leave the schema's
+		// captured lists as they were: OneOf lists, Contains needles, the caller's own slices
+		list := []string{"cherry", "apple", "banana"}
+		nums := []int{30, 10, 20}
+		needle := []int{3, 1}
+		so, sn, sc := z.String().OneOf(list), z.Int().OneOf(nums), z.Slice(z.Slice(z.Int())).Contains(needle)
+		var ds string
+		var dn int
+		var dl [][]int
+		for r := 0; r < 2; r++ {
+			e1 := so.Parse("zzz", &ds)
+			e2 := sn.Parse(5, &dn)
+			e3 := sc.Parse([]any{[]any{1, 3}}, &dl)
+			v.Assert(len(e1) == 1 && len(e2) == 1 && len(e3["$root"]) == 1, "C19:second-use-differs")
+			so.Validate(&ds)
+			sn.Validate(&dn)
+		}
+		v.Assert(list[0] == "cherry" && list[1] == "apple" && list[2] == "banana" && nums[0] == 30 && nums[1] == 10 && nums[2] == 20 && needle[0] == 3 && needle[1] == 1, "C19:schema-value-modified")
+		e4 := sc.Parse([]any{[]any{3, 1}}, &dl)
+		v.Assert(e4 == nil, "C19:second-use-differs")
+		e5 := so.Parse("cherry", &ds)
+		v.Assert(len(e5) == 0, "C19:second-use-differs")
+	case "nil-slice-validate":
+		// Validate changes the value only through Default, Catch and PostTransform: a nil slice
+		// stays nil (read-only transforms, optional slices, top level and below a struct)
+		ro := func(p any, ctx z.Ctx) error { return nil }
+		var top []int
+		e1 := z.Slice(z.Int()).PostTransform(ro).Validate(&top)
+		v.Assert(e1 == nil && top == nil, "C19:validate-changed-a-valid-value")
+		var ds struct {
+			L  []int
+			LL [][]int
+		}
+		ds.LL = [][]int{nil}
+		e2 := z.Struct(z.Schema{"l": z.Slice(z.Int()).PostTransform(ro), "lL": z.Slice(z.Slice(z.Int()).PostTransform(ro))}).PostTransform(ro).Validate(&ds)
+		v.Assert(e2 == nil && ds.L == nil && len(ds.LL) == 1 && ds.LL[0] == nil, "C19:validate-changed-a-valid-value")
+		var in any
+		var pd []int
+		e3 := z.Slice(z.Int()).PostTransform(ro).Parse(in, &pd)
+		v.Assert(e3 == nil && pd == nil, "C19:validate-changed-a-valid-value")
 	case "validate-unchanged":
 		x, y := v.Int("x"), v.Int("y")
 		d := c12Dest{A: x, L: []int{y}, N: c12In{X: y, Y: "s"}, C: x}
